@@ -13,9 +13,24 @@ From V Require Import Base.UString Base.Json Model.SchemaTypes Model.PyBase Mode
      Spec.StixValid Spec.SchemaRefine Proofs.SchemaBasics.
 Import ListNotations.
 
-(* "the same value": equal JSON, except that timestamps are compared as instants *)
+(* the number a JSON number denotes, as mantissa and decimal exponent *)
+Definition jnum (j : jvalue) : option (Z * Z) :=
+  match j with JInt z => Some (z, 0%Z) | JFloat r => dec_of_repr r | _ => None end.
+
+(* m1 * 10^e1 = m2 * 10^e2 *)
+Definition dec_same (a b : Z * Z) : Prop :=
+  let e := Z.min (snd a) (snd b) in
+  (fst a * 10 ^ (snd a - e) = fst b * 10 ^ (snd b - e))%Z.
+
+(* "the same value": equal JSON, except that timestamps are compared as instants and numbers of a
+   float-valued property by value (5 and 5.0 are the same number) *)
 Fixpoint jsame (k : pkind) (a b : jvalue) {struct k} : Prop :=
   match k with
+  | KFloat _ _ =>
+    match jnum a, jnum b with
+    | Some x, Some y => dec_same x y
+    | _, _ => False
+    end
   | KTime _ _ =>
     match a, b with
     | JStr x, JStr y => instant_of_text x <> None /\ instant_of_text x = instant_of_text y
@@ -58,7 +73,7 @@ Section Complete.
   Lemma valid_S n k j : valid_kind sp pok n k j = true -> exists m, n = S m.
   Proof. destruct n; simpl; intros H; [discriminate|eauto]. Qed.
 
-  Lemma jsame_refl_leaf k j : (match k with KTime _ _ | KList _ => False | _ => True end) -> jsame k j j.
+  Lemma jsame_refl_leaf k j : (match k with KTime _ _ | KList _ | KFloat _ _ => False | _ => True end) -> jsame k j j.
   Proof. destruct k; simpl; intros H; auto; contradiction. Qed.
 
   (* ---- string-valued kinds ---- *)
